@@ -24,6 +24,9 @@ pub trait CoordNum: Copy + PartialEq + PartialOrd {
         ensures
             Self::obeys_eq_spec(),
             Self::obeys_partial_cmp_spec(),
+            // `==` on core::cmp::Ordering values is equality of the variants (std's derived PartialEq; ASSUMED)
+            <Ordering as PartialEqSpec>::obeys_eq_spec(),
+            forall|a: Ordering, b: Ordering| #![trigger a.eq_spec(&b)] a.eq_spec(&b) == (a == b),
     ;
     proof fn ax_cmp(a: Self, b: Self)
         ensures
